@@ -6,7 +6,7 @@ import gen_blocks  # noqa: E402
 
 GEN = os.path.join(build.BUILD, "gen", "fblock_gen.cpp")
 _types = None
-ENTRIES = ("h_roundtrip", "h_refs", "h_trunc", "h_clone")
+ENTRIES = ("h_roundtrip", "h_refs", "h_trunc", "h_clone", "h_strings")
 
 
 def prepare():
